@@ -869,6 +869,37 @@ pub fn run(opts: &Opts) -> Run {
         run.case(rev_line(&src, &ops), a);
         n_rev += 1;
     }
+    // triples whose widths add up to 57 … 63 (offset code up to 31 bits + literal-length and match-length extras up to 16 each) at
+    // EVERY alignment of the reader inside its 64-bit container: the end mark in each of the 8 bit positions of the last byte,
+    // 0 … 7 bits consumed before the triple, sources of 9 … 24 bytes.  A valid frame can ask for exactly this; it must never panic
+    for sum in 57u32..=63 {
+        for shift in 0..8u32 {
+            for pre in 0..8u8 {
+                let len = 9 + ((sum + shift + pre as u32) % 16) as usize;
+                let mut src = gen_src(&mut rng, len);
+                let last = src.len() - 1;
+                src[last] = 1u8 << shift;
+                let a_ = 31u8.min((sum - 26) as u8);
+                let b_ = 16u8.min((sum - a_ as u32).min(16) as u8);
+                let c_ = (sum - a_ as u32 - b_ as u32) as u8;
+                let mut ops = vec![ROp::B];
+                if pre > 0 {
+                    ops.push(ROp::G(pre));
+                }
+                ops.push(ROp::T(a_, b_, c_));
+                ops.push(ROp::T(c_, a_, b_));
+                let a = exec_rev(&src, &ops);
+                run.oracle_checks += 1;
+                if a == "fault" {
+                    run.fail("C03", "panic_bit_reader_triple", format!("get_bits_triple({}, {}, {}) panics on a {}-byte source (end mark at bit {}, {} bits consumed before)", a_, b_, c_, src.len(), shift, pre), rev_line(&src, &ops));
+                    run.fail("C01", "panic_bit_reader_triple", format!("get_bits_triple({}, {}, {}) panics on a {}-byte source (a valid sequence bitstream may ask for it)", a_, b_, c_, src.len()), rev_line(&src, &ops));
+                    run.fail("C12", "panic_bit_reader_triple", format!("get_bits_triple({}, {}, {}) panics on a {}-byte source", a_, b_, c_, src.len()), rev_line(&src, &ops));
+                }
+                run.case(rev_line(&src, &ops), a);
+                n_rev += 1;
+            }
+        }
+    }
     run.stat("rev_cases", n_rev);
 
     // ---- writer
